@@ -274,5 +274,6 @@ def queries(tier):
                              "reachability twins)"))
         qs.append(Query(f"ind_{tag}", f, 1, kind="ind", invariants=_inv, timeout=600,
                         desc="1-step induction from an arbitrary selection state (all histories), ghost selection == active_stream_index"))
-        qs.append(Query(f"cosim_{tag}", f, 0, kind="cosim", cosim_cycles=200 if quick else 1000))
+        if not quick or tag in ("stream3", "header2"):
+            qs.append(Query(f"cosim_{tag}", f, 0, kind="cosim", cosim_cycles=100 if quick else 1000))
     return qs
